@@ -443,6 +443,10 @@ class World:
             self.console.publish("version")
 
     def op_console_publish(self, step) -> None:
+        for what, recs in (step.get("foreign") or {}).items():
+            for i, st in recs.items():
+                key = "ac" if what == "ac" else ("group" if self.sc["gen"] == 4 else "zone")
+                self.console.foreign[what][int(i)] = dict(st, **{key: int(i)})
         self.console.publish(step["what"], step.get("ids"))
 
     def op_console_raw(self, step) -> None:
